@@ -31,17 +31,6 @@ def tokStr : Token → String
 def lexedStr (l : Lexed) : String :=
   s!"{tokStr l.tok}:{l.startByte}-{l.endByte}:{l.span.start.line}.{l.span.start.col}-{l.span.stop.line}.{l.span.stop.col}:{l.indent}"
 
-/-- `lexFuel` with, per token, whether it was produced by `consume_format_options`
-(mode stack top = TemplateExprFormat before the step). Used only to attribute failures. -/
-def lexTagged (src : List Ch) : Nat → St → List (Lexed × Bool)
-  | 0, _ => []
-  | fuel + 1, s =>
-    match step src s with
-    | none => []
-    | some (t, s') =>
-      let l := (lexedOf t s', s.modes.head? == some Mode.templateFormat)
-      if t == .error then [l] else l :: lexTagged src fuel s'
-
 def handle (line : String) : String :=
   match line.splitOn " " with
   | "lex" :: rest =>
@@ -49,8 +38,7 @@ def handle (line : String) : String :=
     if chs.any Option.isNone then "bad-request"
     else
       let src := chs.filterMap id
-      " ".intercalate ((lexTagged src (3 * byteLen src + 3) {}).map
-        (fun (l, f) => lexedStr l ++ (if f then "/F" else "/-")))
+      " ".intercalate ((lexAll src).map (fun l => lexedStr l ++ (if l.fromFormat then "/F" else "/-")))
   | _ => "bad-request"
 
 def main : IO Unit := Proto.serve handle
